@@ -14,7 +14,7 @@ for P in sorted(os.listdir(src)):
         d = os.path.join(src, P, n)
         if not (n.isdigit() and os.path.exists(f"{d}/patch.diff") and os.path.exists(f"{d}/demo.py")):
             continue
-        sid = f"R3-{P}-{n}" if "out3" in src else f"R2-{P}-{n}" if "out2" in src else f"{P}-{n}"
+        sid = f"R4-{P}-{n}" if "out4" in src else f"R3-{P}-{n}" if "out3" in src else f"R2-{P}-{n}" if "out2" in src else f"{P}-{n}"
         ev = json.load(open(f"{d}/eval.json")) if os.path.exists(f"{d}/eval.json") else {}
         suite = open(f"{d}/suite_confirm.txt").read() if os.path.exists(f"{d}/suite_confirm.txt") else ""
         static = json.load(open(f"{d}/static.json")) if os.path.exists(f"{d}/static.json") else {}
@@ -45,7 +45,7 @@ for P in sorted(os.listdir(src)):
             "id": sid,
             "property": P,
             "origin": "independent sub-agent given only the property text and a scratch worktree (nothing from /verif)",
-            "round": 3 if "out3" in src else 2 if "out2" in src else 1,
+            "round": 4 if "out4" in src else 3 if "out3" in src else 2 if "out2" in src else 1,
             "files_touched": files,
             "needs_to_manifest": (re.search(r"(?is)(needs?|what it needs|circumstances|trigger)[^\n]*\n(.{0,900})", note) or [None, None, note[:600]])[2].strip()[:900] if note else "",
             "confirmed": {
